@@ -28,7 +28,8 @@ use std::time::{Duration, Instant};
 pub const NAMES: [&str; 3] = ["a", "A", "x-b"];
 /// spellings used for look-ups on every state (the last two are never present)
 const LOOKUP: [&str; 7] = ["a", "A", "x-b", "X-B", "x-B", "zz", "bad name"];
-pub const VALUES: [&str; 2] = ["1", "2"];
+/// the third value is used by the second (three-value) search only
+pub const VALUES: [&str; 3] = ["1", "2", "3"];
 
 type Ref = BTreeMap<String, Vec<String>>;
 
@@ -40,21 +41,28 @@ pub enum Op {
     Append(u8, u8),
     /// remove(NAMES[n] as key type k: 0 = &str, 1 = String, 2 = HeaderName, 3 = &HeaderName)
     Remove(u8, u8),
-    /// retain(pred): 0 = value == "1"; 1 = name != "a"; 2 = name == "x-b" || value == "2"
+    /// retain(pred): 0 = value == "1"; 1 = name != "a"; 2 = name == "x-b" || value == "2";
+    /// 3 = value != "2" (with three values the survivors of one name are distinguishable, so their
+    /// relative order is observable)
     Retain(u8),
     Drain,
     Clear,
 }
 
 pub fn alphabet() -> Vec<Op> {
+    alphabet_n(2)
+}
+
+/// The alphabet over the first `nvals` values.
+pub fn alphabet_n(nvals: usize) -> Vec<Op> {
     let mut v = vec![];
     for n in 0..NAMES.len() as u8 {
-        for x in 0..VALUES.len() as u8 {
+        for x in 0..nvals as u8 {
             v.push(Op::Append(n, x));
         }
     }
     for n in 0..NAMES.len() as u8 {
-        for x in 0..VALUES.len() as u8 {
+        for x in 0..nvals as u8 {
             v.push(Op::Insert(n, x));
         }
     }
@@ -63,7 +71,7 @@ pub fn alphabet() -> Vec<Op> {
             v.push(Op::Remove(n, k));
         }
     }
-    for p in 0..3 {
+    for p in 0..4 {
         v.push(Op::Retain(p));
     }
     v.push(Op::Drain);
@@ -92,7 +100,8 @@ fn pred(p: u8, name: &str, val: &str) -> bool {
     match p {
         0 => val == "1",
         1 => name != "a",
-        _ => name == "x-b" || val == "2",
+        2 => name == "x-b" || val == "2",
+        _ => val != "2",
     }
 }
 
@@ -374,6 +383,32 @@ pub fn check_state(m: &HeaderMap, model: &Ref) -> Result<u64, StepErr> {
         }
     }
 
+    // From<http::HeaderMap>, independent of our own `From<HeaderMap>` and of the hash order of
+    // the real map: the http map is built from the reference with the names in ascending and in
+    // descending order (all orders, for the two distinct names of the alphabet). This block comes
+    // before the round trip below, whose http map inherits the real map's per-instance hash order.
+    for rev in [false, true] {
+        let mut names: Vec<&String> = model.keys().collect();
+        if rev {
+            if names.len() < 2 {
+                continue;
+            }
+            names.reverse();
+        }
+        let mut hm = http::HeaderMap::new();
+        for k in names {
+            for v in &model[k] {
+                hm.append(hname(k), hval(v));
+            }
+        }
+        let api = if rev { "From<http::HeaderMap>(names descending)" } else { "From<http::HeaderMap>" };
+        let from_http = HeaderMap::from(hm);
+        expect_same(api, &read_back(&from_http), model)?;
+        let it = drive(from_http.iter(), total, &format!("{api}.iter"))?;
+        expect_same(&format!("{api}.iter"), &group(it.iter().map(|(k, v)| (k.as_str().to_string(), vstr(v)))), model)?;
+        n += 2;
+    }
+
     // round trip through http::HeaderMap
     {
         let h: http::HeaderMap = m.clone().into();
@@ -395,18 +430,7 @@ pub fn check_state(m: &HeaderMap, model: &Ref) -> Result<u64, StepErr> {
                 "after HeaderMap -> http::HeaderMap -> HeaderMap: len {} / len_keys {}, expected {total} / {}",
                 back.len(), back.len_keys(), model.len())));
         }
-        // independent of our own `From<HeaderMap>`: build the http map from the reference
-        let mut hm = http::HeaderMap::new();
-        for (k, vs) in model {
-            for v in vs {
-                hm.append(hname(k), hval(v));
-            }
-        }
-        let from_http = HeaderMap::from(hm);
-        expect_same("From<http::HeaderMap>", &read_back(&from_http), model)?;
-        let it = drive(from_http.iter(), total, "From<http::HeaderMap>.iter")?;
-        expect_same("From<http::HeaderMap>.iter", &group(it.iter().map(|(k, v)| (k.as_str().to_string(), vstr(v)))), model)?;
-        n += 5;
+        n += 3;
     }
     Ok(n)
 }
@@ -775,7 +799,7 @@ fn long_walk(alphabet: &[Op], steps: usize, cap: usize, deadline: Instant) -> (u
         // appends three times as likely as anything else so that long value lists build up
         let op = if r % 4 != 0 {
             r /= 4;
-            Op::Append((r % NAMES.len()) as u8, ((r / 8) % VALUES.len()) as u8)
+            Op::Append((r % NAMES.len()) as u8, ((r / 8) % 2) as u8)
         } else {
             r /= 4;
             alphabet[r % alphabet.len()].clone()
@@ -905,6 +929,21 @@ pub fn main(args: &mc_core::cli::Args) -> i32 {
         confirm(&v.path, &v.err, cap);
         reporter.add(violation(&v.path, &v.err, cap, "BFS"));
     }
+    // second search: three distinguishable values per name at a smaller per-name cap (relative
+    // order of the survivors of a partial removal is observable only with >= 3 distinct values)
+    let cap3 = if thorough { 4 } else { 3 };
+    let alpha3 = alphabet_n(3);
+    let m3 = Bfs18 { alphabet: alpha3.clone(), cap: cap3, cov: RefCell::new(Cov::default()) };
+    let (stats3, viols3) = bfs::bfs(&m3, init.clone(), u64::MAX, u32::MAX, Some(deadline));
+    let cov3 = m3.cov.into_inner();
+    for v in &viols3 {
+        confirm(&v.path, &v.err, cap3);
+        reporter.add(violation(&v.path, &v.err, cap3, "BFS (three values)"));
+    }
+    for (ops, e, _) in cov3.soft.values() {
+        confirm(ops, e, cap3);
+        reporter.add(violation(ops, e, cap3, "BFS (three values; the rest of every state is still compared)"));
+    }
     let mut soft_states: u64 = 0;
     for e in &init_soft {
         confirm(&[], e, cap);
@@ -929,9 +968,11 @@ pub fn main(args: &mc_core::cli::Args) -> i32 {
     }
 
     let mut ev = Evidence::new("C18", &args.tier, "model_checking");
-    ev.set("states", stats.states);
-    ev.set("transitions", stats.transitions);
-    ev.set("traces_validated_against_impl", stats.transitions);
+    ev.set("states", stats.states + stats3.states);
+    ev.set("transitions", stats.transitions + stats3.transitions);
+    ev.set("traces_validated_against_impl", stats.transitions + stats3.transitions);
+    ev.set("search_two_values", json!({"states": stats.states, "transitions": stats.transitions, "max_values_per_name": cap, "fixpoint": !stats.capped}));
+    ev.set("search_three_values", json!({"states": stats3.states, "transitions": stats3.transitions, "max_values_per_name": cap3, "fixpoint": !stats3.capped, "individual_comparisons": cov3.comparisons, "distinct_nontrivial": cov3.distinct_nontrivial.len()}));
     ev.set("bfs_max_depth", stats.max_depth as u64);
     ev.set("bfs_fixpoint_reached", !stats.capped);
     ev.set("evaluations", stats.transitions + tw.histories + walk_done);
@@ -952,7 +993,7 @@ pub fn main(args: &mc_core::cli::Args) -> i32 {
         samples.push(json!({"kind": "initial", "ops": []}));
     }
     ev.set("samples", Value::Array(samples));
-    let capped = stats.capped || tw.capped;
+    let capped = stats.capped || stats3.capped || tw.capped;
     ev.set("capped", capped);
     ev.set("exhaustive", !capped);
     if capped {
@@ -961,13 +1002,14 @@ pub fn main(args: &mc_core::cli::Args) -> i32 {
     ev.set("violations_found", json!(reporter.summaries()));
     ev.assume("state key = name -> ordered values read from the real map; a cloned HeaderMap may differ from its original in hash-table internals (capacity, tombstones) — the un-merged twin rebuilds every history on a fresh map without cloning");
     ev.assume("iteration order across names is not part of the contract and is not compared; everything is compared per name");
-    ev.assume("names {a, A, x-b} (two distinct headers), values {1, 2}; append disabled at the per-name cap (5 quick / 6 thorough: the SmallVec<[_;4]> spill is inside)");
+    ev.assume("names {a, A, x-b} (two distinct headers), values {1, 2}; append disabled at the per-name cap (5 quick / 6 thorough: the SmallVec<[_;4]> spill is inside); second search with values {1, 2, 3} at cap 3 quick / 4 thorough");
     ev.wall_s = start.elapsed().as_secs_f64();
     ev.violations = reporter.distinct() as i64;
     ev.write();
     println!(
-        "C18 {}: BFS {} states, {} transitions (max depth {}, fixpoint {}), {} comparisons; twin depth {}: {} histories{}; long walk {} steps; {:.1}s",
+        "C18 {}: BFS {} states, {} transitions (max depth {}, fixpoint {}), {} comparisons; three-value BFS {} states, {} transitions (fixpoint {}); twin depth {}: {} histories{}; long walk {} steps; {:.1}s",
         args.tier, stats.states, stats.transitions, stats.max_depth, !stats.capped, cov.comparisons,
+        stats3.states, stats3.transitions, !stats3.capped,
         twin_depth, tw.histories, if tw.capped { " (capped)" } else { "" }, walk_done, ev.wall_s
     );
     reporter.finish()
